@@ -425,7 +425,7 @@ func schedSyncVsRotate(res *core.Result, r *core.RNG) error {
 	var stop int32
 	var wg sync.WaitGroup
 	var replies int64
-	for k := 0; k < 8; k++ {
+	for k := 0; k < 16; k++ {
 		wg.Add(1)
 		go func() {
 			defer wg.Done()
@@ -446,10 +446,15 @@ func schedSyncVsRotate(res *core.Result, r *core.RNG) error {
 		}()
 	}
 	rot := 0
-	for week := 0; week < 10; week++ {
-		// a few reports at irregular slots near the clock (registered before they are sent)
-		for j := 0; j < 3; j++ {
-			ts := w.Now - uint32(r.Intn(400))
+	for week := 0; week < 30; week++ {
+		// a few reports at irregular slots near the clock (registered before they are sent), some in the
+		// first and some in the second week of the window (the rotation moves the latter)
+		cur := w.S.VerifSnapshot().Offset
+		for j := 0; j < 4; j++ {
+			if j == 2 {
+				w.SetNow(cur + 2400 + uint32(r.Intn(700)))
+			}
+			ts := w.Now - uint32(r.Intn(380))
 			mu.Lock()
 			reported[ts] = true
 			mu.Unlock()
@@ -466,7 +471,7 @@ func schedSyncVsRotate(res *core.Result, r *core.RNG) error {
 	atomic.StoreInt32(&stop, 1)
 	wg.Wait()
 	res.Count("sched.sync-vs-rotate")
-	if rot < 5 || atomic.LoadInt64(&replies) < 20 {
+	if rot < 15 || atomic.LoadInt64(&replies) < 20 {
 		w.Failed = fmt.Sprintf("sync-vs-rotate: only %d rotations / %d replies", rot, replies)
 	}
 	for _, b := range bad {
